@@ -55,16 +55,20 @@ module default {
     type NF64 { required v: float64; }
     type NDec { required v: decimal; }
     type SStr { required v: str; }
+    scalar type small extending int64 { constraint max_value(10); }
+    scalar type tiny16 extending int16 { constraint max_value(5); }
+    type NSmall { required v: small; }
 };
 '''
 D = decimal.Decimal
 HOLDER = {
     'N16': ('int16', 32767), 'N32': ('int32', 2147483647), 'N64': ('int64', 9223372036854775807),
     'NBig': ('bigint', 10 ** 30), 'NF32': ('float32', 3.0e38), 'NF64': ('float64', 1e300),
-    'NDec': ('decimal', D('1e400')), 'SStr': ('str', 'zz'),
+    'NDec': ('decimal', D('1e400')), 'SStr': ('str', 'zz'), 'NSmall': ('small', 7),
 }
 INT_RANGE = {'std::int16': (-2 ** 15, 2 ** 15 - 1), 'std::int32': (-2 ** 31, 2 ** 31 - 1),
              'std::int64': (-2 ** 63, 2 ** 63 - 1)}
+USER_SCALARS = {'default::small': ('std::int64', 10), 'default::tiny16': ('std::int16', 5)}
 _S: dict = {}
 
 
@@ -125,7 +129,9 @@ def type_tree(t, schema):
             names.add(str(d.get_name(schema)).replace('default::', ''))
         return ('object', names)
     base = mt
-    # user scalar subtypes / enums: judge by the topmost concrete base
+    if str(mt.get_name(schema)) in USER_SCALARS:
+        return ('scalar', str(mt.get_name(schema)))
+    # other user scalar subtypes / enums: judge by the topmost concrete base
     while True:
         bases = base.get_bases(schema).objects(schema)
         if not bases or str(bases[0].get_name(schema)).startswith('std::any'):
@@ -139,6 +145,12 @@ def belongs(v, tt, objtype_of=None):
     k = tt[0]
     if k == 'scalar':
         name = tt[1]
+        if name in USER_SCALARS:
+            base, mx = USER_SCALARS[name]
+            r = belongs(v, ('scalar', base), objtype_of)
+            if r:
+                return r
+            return None if v <= mx else f'{v} violates the constraint max_value({mx}) of {name}'
         if name == 'std::bool':
             return None if isinstance(v, bool) else f'{v!r} is not a bool'
         if isinstance(v, bool):
@@ -202,6 +214,7 @@ def belongs(v, tt, objtype_of=None):
 # stream (b): typed expressions with exact evaluation
 
 NUMT = ['int16', 'int32', 'int64', 'bigint', 'float32', 'float64', 'decimal']
+USERT = {'small': 'int64', 'tiny16': 'int16'}     # user scalar subtype -> parent
 # implicit casts as documented in docs/reference/reference/edgeql/casts.csv ('impl' cells)
 IMPLICIT = {
     'int16': {'int32', 'int64', 'float32', 'float64', 'bigint', 'decimal'},
@@ -222,6 +235,10 @@ def lub(types):
     if any(t is None or t == '?' for t in ts):
         return '?'
     ts = set(ts)
+    if len(ts) == 1:
+        return next(iter(ts))
+    # a user scalar subtype is implicitly castable to its parent (and on from there)
+    ts = {USERT.get(t, t) for t in ts}
     cands = [c for c in NUMT if all(t == c or c in IMPLICIT[t] for t in ts)]
     if not cands:
         return None
@@ -230,8 +247,29 @@ def lub(types):
 
 
 
+EXP_LITS = [   # (text, documented type, value): the n suffix gives bigint unless there is a
+    # fractional part or a negative exponent, then decimal; without suffix an exponent means float64
+    ('1e3n', 'bigint', 1000), ('1e-2n', 'decimal', D('0.01')), ('5e-1n', 'decimal', D('0.5')),
+    ('25e-1n', 'decimal', D('2.5')), ('1.5e-2n', 'decimal', D('0.015')), ('1e-2', 'float64', 0.01),
+    ('1e3', 'float64', 1000.0), ('2e0n', 'bigint', 2), ('1.0e1n', 'decimal', D('10')),
+]
+
+
+def _base(t):
+    return USERT.get(t, t)
+
+
+def _arr_el(types):
+    """element type of an array literal: the common type of the elements; with two or more
+    elements a scalar subtype is generalised to its base type (observed, consistent behaviour)"""
+    t = lub(types)
+    return _base(t) if len(types) >= 2 else t
+
+
 def lit(ty, n):
     """small literal n (1..3) of numeric type ty -> (text, python value)"""
+    if ty in USERT:
+        return f'<{ty}>{n}', n
     if ty == 'int64':
         return str(n), n
     if ty == 'float64':
@@ -272,14 +310,24 @@ class EG:
     def atom(self, allow_extreme=True):
         c = self.i(0, 5)
         if c <= 2 or not allow_extreme:
-            ty = self.pick(NUMT)
+            r = self.i(0, 9)
+            if r == 0:
+                t, ty, v = self.pick(EXP_LITS)
+                self.types.add(ty)
+                self.feats.add('exponent-literal')
+                return self.reg(t, ty, [v])
+            ty = self.pick(NUMT + ['small', 'tiny16']) if r <= 2 else self.pick(NUMT)
             self.types.add(ty)
+            if ty in USERT:
+                self.feats.add('user-scalar')
             t, v = lit(ty, self.i(1, 3))
             return self.reg(t, ty, [v])
         if c == 3:
             h = self.pick([k for k in HOLDER if k != 'SStr'])
             self.types.add(HOLDER[h][0])
             self.feats.add('holder-path')
+            if h == 'NSmall':
+                self.feats.add('user-scalar')
             return self.reg(f'{h}.v', HOLDER[h][0], [HOLDER[h][1]])
         if c == 4:
             # a path through a union of holder types
@@ -320,7 +368,8 @@ class EG:
                 vals = [{'+': x + y, '-': x - y, '*': x * y}[op] for x in av for y in bv]
             except TypeError:
                 vals = None     # decimal with float: the compiler must reject
-            return self.reg(f'({a} {op} {b})', lub([self.ty(a), self.ty(b)]), vals)
+            # operators are defined on the base types: a subtype operand is generalised
+            return self.reg(f'({a} {op} {b})', lub([_base(self.ty(a)), _base(self.ty(b))]), vals)
         if c == 3:
             parts = [self.expr(depth - 1, allow_extreme) for _ in range(self.i(2, 3))]
             self.feats.add('set-constructor')
@@ -379,7 +428,7 @@ class EG:
             els = [self.single(depth - 1, allow_extreme) for _ in range(self.i(1, 3))]
             self.feats.add('array-unpack')
             return self.reg('array_unpack([' + ', '.join(t for t, _ in els) + '])',
-                            lub([self.ty(t) for t, _ in els]), _cat(els))
+                            _arr_el([self.ty(t) for t, _ in els]), _cat(els))
         if c == 10:
             a = self.expr(depth - 1, allow_extreme)
             self.feats.add('subquery')
@@ -395,7 +444,7 @@ class EG:
         return self.reg(f'({a[0]}, 1).0', self.ty(a[0]), a[1])
 
     def small(self, depth):
-        ty = self.pick(NUMT)
+        ty = self.pick(NUMT + ['small'])
         self.types.add(ty)
         t, v = lit(ty, self.i(1, 3))
         return self.reg(t, ty, [v])
@@ -420,7 +469,8 @@ class EG:
         if c == 5:
             els = [self.single(d, True) for _ in range(self.i(1, 4))]
             self.feats.add('array-literal')
-            self.doc_type = ('array', lub([self.ty(t) for t, _ in els]))
+            # (an array literal of a scalar subtype is typed as array<base type>)
+            self.doc_type = ('array', _arr_el([self.ty(t) for t, _ in els]))
             return 'select [' + ', '.join(t for t, _ in els) + ']', ('arrayset', _cat(els))
         if c == 6:
             t, v = self.expr(d)
@@ -436,7 +486,7 @@ class EG:
             els = [self.single(d, True) for _ in range(self.i(1, 3))]
             t2, v2 = self.expr(d)
             self.feats.add('array-in-set')
-            self.doc_type = ('array', lub([lub([self.ty(t) for t, _ in els]), self.ty(t2)]))
+            self.doc_type = ('array', lub([_arr_el([self.ty(t) for t, _ in els]), self.ty(t2)]))
             return 'select {[' + ', '.join(t for t, _ in els) + '], array_agg(' + t2 + ')}', \
                 ('arrays', [_cat(els), v2])
         t, v = self.expr(d, allow_extreme=False)     # no overflow: sums of small operands only
@@ -692,7 +742,7 @@ def _doc_matches(doc, tt):
     if d is None:
         return (f'the documented implicit casts give the operand types no common type, yet the expression '
                 f'is accepted with type {tt[1]}')
-    if tt[1] != 'std::' + d:
+    if tt[1] != ('default::' + d if d in USERT else 'std::' + d):
         return f'the documented implicit casts make the common type {d}, the compiler infers {tt[1]}'
     return None
 
